@@ -1,4 +1,5 @@
 import VtProofs.JsonGrammar
+import VtProofs.JsonTotal
 import VtProofs.TileJsonMerge
 /-!
 # C17 — JSON round trips and containers hand back the TileJSON they were given
@@ -75,6 +76,25 @@ theorem escape_in_rfc8259 (s : List Char) : RfcString (quote s) := quote_rfc s
 /-- what `BTreeMap::from_iter` builds from entries that are already strictly sorted is the list itself -/
 theorem object_from_sorted {V : Type} (kvs : List (List Char × V)) (h : SortedKeys kvs) : mkObj kvs = kvs :=
   mkObj_sorted kvs h
+
+/-! ### totality on arbitrary input -/
+
+/-- **C17h**: the parser model is total on EVERY byte string, not only on `stringify` output:
+    `parseBytes` never reports "out of fuel" (fuel `2·|input| + 4`; every recursive call is paid for
+    by a consumed structural byte) and never a panic — each input is answered `ok v` or `err`. -/
+theorem parse_total (ops : NumOps N) (input : Bytes) :
+    (∃ v, parseBytes ops input = .ok v) ∨ parseBytes ops input = .err := by
+  have h1 := parseBytes_total ops input
+  cases h : parseBytes ops input with
+  | ok v => exact Or.inl ⟨v, rfl⟩
+  | err => exact Or.inr rfl
+  | panic s => exact absurd h (parseBytes_no_panic ops input s)
+  | fuel => exact absurd h h1
+
+/-- fuel bound in the recursive form (any iterator state): `2·|rest| + 3` suffices for a value and
+    a successful parse never leaves more input than it was given -/
+theorem parseValue_total (ops : NumOps N) (it : Iter) (f : Nat) (hf : 2 * it.rest.length + 3 ≤ f) :
+    Good it.rest.length (parseValue ops f it) := (total_aux ops f).1 it hf
 
 /-! ### non-vacuity -/
 
